@@ -77,8 +77,8 @@ class Oracles:
         after = self.snapshot(pm)
         if after != snap:
             w.fail({"C09"}, "spawn/rejected-left-trace", f"{rm.kind}/{got}: before {snap} after {after}")
-        if rm.calls or rm.pulled > 0:
-            w.fail({"C09"}, "spawn/rejected-touched-func-or-iterable", f"calls={len(rm.calls)} pulled={rm.pulled}")
+        if rm.calls or rm.pulled > 0 or rm.iter_calls:
+            w.fail({"C09"}, "spawn/rejected-touched-func-or-iterable", f"calls={len(rm.calls)} pulled={rm.pulled} iter()={rm.iter_calls}")
         if set(asyncio.all_tasks(w.loop)) - before:
             w.fail({"C09"}, "spawn/rejected-created-task", "")
         if rm.spec.get("gname") is None and rm.kind != "start":
@@ -348,6 +348,8 @@ class Oracles:
             want = [t.tid for t in reversed(running)]
         else:
             n = op.get("n", 1)
+            if n == "inf":
+                n = inf
             if op.get("rel") is not None:
                 n = R + op["rel"]
             k = min(max(n, 0), R)
@@ -573,6 +575,10 @@ class Oracles:
 
     def is_injected(self, pm: PoolM, exc: BaseException) -> bool:
         if any(exc is x for x in pm.injected):
+            return True
+        # a task that was cancelled by the *user* (abandoned flush caller) is in the cancelled state; gathering it without
+        # return_exceptions raises CancelledError - asyncio's doing, and the user's
+        if isinstance(exc, asyncio.CancelledError) and any(getattr(t, "disturbed", False) for t in pm.tasks.values()):
             return True
         # a user function that returned a non-coroutine makes the library raise its documented NotCoroutine out of the spawner
         return type(exc).__name__ == "NotCoroutine" and any(getattr(r, "bad_return", None) is not None for r in pm.reqs)
